@@ -1,5 +1,5 @@
 // C07/C20 harness (a) and (c): the real frame handlers of apps/m17-demod.cpp (included with main renamed),
-// LinkSetupFrame::decode_callsign, ax25_frame, M17Framer, M17FrameDecoder and ClockRecovery, driven with the
+// LinkSetupFrame::decode_callsign, ax25_frame, M17Framer, M17FrameDecoder, ClockRecovery, Correlator and SyncWord, driven with the
 // cases read from stdin.  Meant to be built with -fsanitize=address,undefined,float-cast-overflow
 // -fno-sanitize-recover=all -D_GLIBCXX_ASSERTIONS.  Every case runs in a forked child so that an abort is an
 // observation ("DIED") and not the end of the run; the child's sanitizer report is appended after a TAB.
@@ -106,6 +106,28 @@ static FD::input_buffer_t frame_of(const std::string& h)
     return buf;
 }
 
+
+// ---- a scripted stand-in for the Correlator, to drive the real SyncWord<> template: limit() = 1 and magnitudes +-0.5 make
+// triggered() return the scripted (integral) value itself, or 0 for 0; index() is the scripted correlator index
+struct ScriptedCorrelator
+{
+    static constexpr size_t SYMBOLS = Correlator<float>::SYMBOLS;
+    static constexpr size_t SAMPLES_PER_SYMBOL = Correlator<float>::SAMPLES_PER_SYMBOL;
+    using value_type = float;
+    float value = 0;
+    size_t idx = 0;
+    float limit() const { return 1.f; }
+    float correlate(std::array<int8_t, SYMBOLS>) { return value; }
+    size_t index() const { return idx; }
+};
+
+template <typename A> static std::string join_ints(const A& a, double div = 1)
+{
+    std::string r;
+    for (size_t i = 0; i != a.size(); ++i) { if (i) r += "."; r += std::to_string((long long)(a[i] / div)); }
+    return r;
+}
+
 // ---- the work of one case, in the child
 static void run_case(const std::vector<std::string>& t)
 {
@@ -178,6 +200,40 @@ static void run_case(const std::vector<std::string>& t)
             cr.update();
         }
         emit("si=" + std::to_string(int(cr.sample_index_)));
+    } else if (t[0] == "corr" && t.size() == 2) {
+        // the real Correlator<float>: s<v> = sample(v), c = correlate(weights), o<i> = outer_symbol_levels(i), a<i> = apply(.., i);
+        // integral values, so every float operation below is exact.  buffer_ / tmp have no initialiser: prefilled here.
+        auto c = std::make_unique<Correlator<float>>();
+        for (size_t k = 0; k != c->buffer_.size(); ++k) c->buffer_[k] = -float(k + 1);
+        c->tmp.fill(-7000);
+        const Correlator<float>::sync_t w{1, 2, 4, 8, 16, 32, 64, -128};
+        bool first = true;
+        for (auto& op : split_on(t[1], ',')) {
+            std::string o;
+            long v = op.size() > 1 ? std::stol(op.substr(1)) : 0;
+            if (op[0] == 's') { c->sample(float(v)); o = "p=" + std::to_string(c->buffer_pos_) + "." + std::to_string(c->prev_buffer_pos_) + "." + std::to_string(c->index()); }
+            else if (op[0] == 'c') o = "c=" + std::to_string((long long)c->correlate(w));
+            else if (op[0] == 'o') { c->outer_symbol_levels(size_t(v)); o = "o=" + join_ints(c->tmp, 1000); }
+            else if (op[0] == 'a') { std::vector<float> seen; c->apply([&](float x) { seen.push_back(x); }, uint8_t(v)); o = "a=" + join_ints(seen); }
+            emit((first ? "" : " ") + o); first = false;
+        }
+    } else if (t[0] == "sw" && t.size() == 2) {
+        // the real SyncWord<> on the scripted correlator: <value>:<index> = operator(), u = updated()
+        ScriptedCorrelator sc;
+        SyncWord<ScriptedCorrelator> sw({1, 1, 1, 1, 1, 1, 1, 1}, 0.5f, -0.5f);
+        sw.samples_.fill(9);
+        bool first = true;
+        for (auto& op : split_on(t[1], ',')) {
+            std::string o;
+            if (op == "u") o = "u=" + std::to_string(int(sw.updated()));
+            else {
+                auto f = split_on(op, ':');
+                sc.value = float(std::stol(f[0])); sc.idx = size_t(std::stoul(f[1]));
+                size_t r = sw(sc);
+                o = "t=" + std::to_string(r) + "." + std::to_string(int(sw.is_triggered())) + "/" + join_ints(sw.samples_);
+            }
+            emit((first ? "" : " ") + o); first = false;
+        }
     } else if (t[0] == "dec" && t.size() == 3) {
         // frames through the real decoder with the application's handle_frame as its callback
         display_lsf = t[1][0] == '1';
